@@ -23,6 +23,8 @@ def make_schedule(seed, density, pages, start_error):
             if r.random() < density / 2:
                 idle[(kind, k)] = r.choice(DELAYS[2:])
     s = {'busy': busy, 'idle_delay': idle}
+    if r.random() < max(0.3, density):
+        s['status_delays'] = [r.choice(DELAYS[2:]) for _ in range(r.randrange(1, 3))]   # delays on the initial status answers
     if start_error:
         s['start_error'] = start_error
     return s
